@@ -22,7 +22,7 @@ MANIFEST = {
 
 RULE = ("adversarial projects (tools/props/c01_gen.py over tools/projgen.py): 1-4 types (structs / unit-variant enums) with serde rename / rename_all (8 conventions) / skip, "
         "validators with hostile messages, README types nested to depth 3 at field / parameter / return / channel sites, 1-4 commands, channels, events, "
-        "non-ASCII names (event names over every category char::is_alphanumeric accepts, renames and Rust identifiers in several scripts), output-directory states (fresh / stale files under every generated name / a larger earlier generation in the other mode), type mappings, 8 x 8 naming-case settings (kebab cases give quoted keys and bracket member access), raw identifiers, comma-carrying Result / tuple shapes, 1-3 files, repeated event names (one listener each), skipped variants, ipc::Channel; each project generated by the real CLI in both modes; one evaluation = one written file "
+        "non-ASCII names (event names over every category char::is_alphanumeric accepts, renames and Rust identifiers in several scripts), output-directory states (fresh / stale files under every generated name / a larger earlier generation in the other mode), type mappings, 8 x 8 naming-case settings (kebab cases give quoted keys and bracket member access), raw identifiers, comma-carrying Result / tuple shapes, 1-3 files, repeated event names (one listener each), untyped payload variables incl. raw identifiers, skipped variants (any, also all of them) and enums without variants, ipc::Channel; each project generated by the real CLI in both modes; one evaluation = one written file "
         "(types.ts, commands.ts, events.ts, index.ts) judged by the extracted oracle and compared token for token with the model. Non-trivial = file has at least one hole; "
         "distinct = distinct (project, cfg, mode, file)")
 TRUSTED = ["Spec/TsLex.v + Spec/TsModule.v + Spec/C01Wf.v: specification of the TypeScript subset (lexer, item/type/expression grammar, statement grammar for bodies, reserved words, literal well-formedness); not validated against tsc (none available)",
